@@ -345,6 +345,7 @@ pub mod rust_log_ref_finder
 
                     result.push(ref_entry);
                 },
+                Rule::other_identifier => (),
                 Rule::EOI => (),
                 _ => unreachable!(),
             }
